@@ -234,6 +234,8 @@ def same_value(a, b):
         fa, fb = float(a), float(b)
     except (TypeError, ValueError, OverflowError):
         return False
+    if fa == 0 and fb == 0:
+        return math.copysign(1.0, fa) == math.copysign(1.0, fb)      # -0.0 and +0.0 are different values
     return (fa != fa and fb != fb) or fa == fb
 
 
@@ -867,6 +869,17 @@ def corpus_specs():
     """known witnesses and hand-picked adjacency cases, under both settings"""
     out = []
     G = lambda name, help_, lnames, children: {'src': 'class:Gauge', 'name': name, 'help': help_, 'labelnames': lnames, 'children': children}
+    PZ, NZ = {'b': lib.bits_of(0.0)}, {'b': lib.bits_of(-0.0)}
+
+    def zeros(legacy, vals):
+        return {'kind': 'registry', 'legacy': legacy, 'families': [{'src': 'raw', 'name': 'z', 'help': 'signed zeros', 'type': 'gauge',
+                'unit': '', 'samples': [{'name': 'z', 'labels': [['i', str(i)]], 'value': v, 'ts': None} for i, v in enumerate(vals)]}]}
+    # signed zeros, first of all (a rendering that depends on what was rendered earlier in the process shows here):
+    # -0.0 alone, then +0.0 alone, then both in one registry in both orders, then -0.0 alone again; also an int 0
+    for vals in ([NZ], [PZ], [PZ, NZ], [NZ, PZ], [NZ], [{'i': 0}, NZ], [PZ]):
+        out.append(('corpus:signed-zero', zeros(False, vals)))
+    out.append(('corpus:signed-zero', {'kind': 'registry', 'legacy': False, 'families': [
+        {'src': 'class:Gauge', 'name': 'gz', 'help': 'h', 'labelnames': ['l'], 'children': [{'lv': ['p'], 'set': PZ}, {'lv': ['n'], 'set': NZ}]}]}))
     for legacy in (True, False):
         R = lambda fams: {'kind': 'registry', 'legacy': legacy, 'families': fams}
         # F2: accepted even under legacy validation, written bare
@@ -983,27 +996,38 @@ TS_OVERFLOW = (2 ** 1024 - 2 ** 970) * 1000
 
 
 def check_number_laws(metrics):
-    """re-validate, on every generated sample, the facts the theorem `sample_line_roundtrip` takes as hypotheses about numbers
-    (trusted base: CPython int()/float()/repr): the rendered value is a number token, int() rejects it, float() gives the
-    value back bit for bit (NaN -> NaN), int(str(ms)) == ms and ms / 1000 does not overflow"""
+    """re-validate, on every generated sample, the facts the theorem `sample_line_roundtrip` takes as hypotheses about numbers.
+    CPython's own part (repr/float/int/str, independent of the library) is trusted base: a violation is an infrastructure
+    error.  The library's part (what `floatToGoString` renders) is the code under test: a violation is an oracle failure,
+    returned as [(signature, what)] — the exposed value would not be read back as the same value."""
     from prometheus_client.utils import floatToGoString
+    fails = []
     for m in metrics:
         for s in m.samples:
             v = float(s.value)
+            if v == v and lib.bits_of(float(repr(v))) != lib.bits_of(v):
+                raise lib.Infra('trusted number law violated by CPython: float(repr(%r)) != %r' % (v, v))
             tok = floatToGoString(s.value)
-            if not NUMTOK.fullmatch(tok):
-                raise lib.Infra('trusted number law violated: floatToGoString(%r) = %r is not a number token' % (s.value, tok))
-            try:
-                int(tok)
-                raise lib.Infra('trusted number law violated: int(%r) succeeds' % tok)
-            except ValueError:
-                pass
-            if lib.bits_of(float(tok)) != lib.bits_of(v) and not (v != v):
-                raise lib.Infra('trusted number law violated: float(%r) != %r' % (tok, v))
+            what = None
+            if not isinstance(tok, str) or not NUMTOK.fullmatch(tok):
+                what = 'floatToGoString(%r) = %r is not a number token' % (s.value, tok)
+            else:
+                try:
+                    int(tok)
+                    what = 'floatToGoString(%r) = %r is read back by int()' % (s.value, tok)
+                except ValueError:
+                    back = float(tok)
+                    if not (v != v and back != back) and lib.bits_of(back) != lib.bits_of(v):
+                        what = 'exposed value %r of sample %r is rendered %r, which is read back as %r' % (v, s.name, tok, back)
+            if what and len(fails) < 3:
+                fails.append(('C03:value', what))
             if s.timestamp is not None:
                 ms = int(float(s.timestamp) * 1000)
-                if int(str(ms)) != ms or abs(ms) >= TS_OVERFLOW:
-                    raise lib.Infra('trusted number law violated for millisecond count %r' % ms)
+                if int(str(ms)) != ms:
+                    raise lib.Infra('trusted number law violated by CPython: int(str(%r))' % ms)
+                if abs(ms) >= TS_OVERFLOW:
+                    raise lib.Infra('generator produced a millisecond count beyond the int/1000 bound: %r' % ms)
+    return fails
 
 
 class Runner:
@@ -1043,7 +1067,10 @@ class Runner:
             ctx.case(None, None)
             return res
         ctx.count('family-level:' + res.get('famlevel', '?'))
-        check_number_laws(metrics)
+        for sig, what in check_number_laws(metrics):
+            if not any(fs == sig for fs, _ in res['fails']):        # not already reported by the round-trip oracle
+                self.sigs[sig] = self.sigs.get(sig, 0) + 1
+                self.fail_records.append((sig, what, spec, len(text or '')))
         nontrivial = ('\\' in text or any(s.timestamp is not None for m in metrics for s in m.samples)
                       or any(not LEG_METRIC.fullmatch(x) for m in metrics for x in [m.name] + [s.name for s in m.samples]))
         key = c14text.doc_key(text) + ('L' if spec['legacy'] else 'U')
@@ -1237,6 +1264,11 @@ def replay(ctx, case):
     R = Runner(ctx)
     if 'families' in c:
         spec = {'kind': 'registry', 'legacy': bool(c['legacy']), 'families': c['families']}
+        # the run starts with the signed-zero corpus; a failure that depends on what the process rendered earlier
+        # (state carried across registries) is reproduced only in the same order, so replay starts the same way
+        for tag, prime in corpus_specs():
+            if tag == 'corpus:signed-zero':
+                R.run_spec('replay-prime', prime)
         print('REPLAY registry', compact(spec))
         res = R.run_spec('replay', spec)
         if 'skip' in res:
